@@ -510,6 +510,14 @@ func generate(c *drv.Ctx) {
 			}
 		}
 	}
+	// an empty access_token query parameter carries no token: the form body's token counts (finding D27)
+	for _, media := range []string{"urlencoded", "multipart"} {
+		for _, tr := range []string{"direct", "server"} {
+			for _, op := range [][]Writer{nil, {{T: "bearer", P: ""}}, {{T: "basic", U: "u", P: "p"}}, {{T: "apikey", Name: "access_token", In: "query", P: ""}}} {
+				emit(Case{Op: op, Media: media, Transport: tr, Query: []KV{{"access_token", ""}}, Form: []KV{{"access_token", tok(9)}, {"other", "x"}}, Auths: apool})
+			}
+		}
+	}
 	c.Extra["exhaustive_cases"] = n
 	// (iii) seeded random: arbitrary strings
 	nr := 5000
